@@ -46,6 +46,7 @@ CONSTS = {
     'LZ4F_ERROR_maxBlockSize_invalid', 'LZ4F_ERROR_dstMaxSize_tooSmall', 'LZ4F_ERROR_GENERIC', 'LZ4F_ERROR_maxCode',
     'LZ4F_ERROR_headerVersion_wrong', 'LZ4F_ERROR_reservedFlag_set', 'LZ4F_ERROR_frameHeader_incomplete', 'LZ4F_ERROR_frameType_unknown', 'LZ4F_ERROR_headerChecksum_invalid',
     'LZ4F_ERROR_blockChecksum_invalid', 'LZ4F_ERROR_contentChecksum_invalid', 'LZ4F_ERROR_frameSize_wrong', 'LZ4F_ERROR_decompressionFailed',
+    'LZ4F_MIN_SIZE_TO_KNOW_HEADER_LENGTH', 'LZ4F_ERROR_frameDecoding_alreadyStarted', 'LZ4F_ERROR_io_read', 'LZ4F_ERROR_parameter_null', 'LZ4F_ERROR_allocation_failed',
     ], []),
   'lz4io': (['lz4io.c'], ['LZ4IO_MULTITHREAD=1'], [
     'LZ4IO_MAGICNUMBER', 'LEGACY_MAGICNUMBER', 'LZ4IO_SKIPPABLE0', 'LZ4IO_SKIPPABLEMASK', 'LEGACY_BLOCKSIZE',
